@@ -114,12 +114,14 @@ def run_order_gfa(
         # Initialize files
         # f_gfa = open(outdir+'/'+gfa_filename.split("/")[-1][:-4]+'-'+chromosome+'.gfa', 'w')
 
-        scaffold_nodes, inside_nodes, node_order, bo, bubble_count = decompose_and_order(
+        scaffold_nodes, inside_nodes, node_order, next_bo, bubble_count = decompose_and_order(
             graph, component_nodes, chromosome, bo
         )
 
         # skip a chromosome if something went wrong
         if scaffold_nodes:
+            # a skipped chromosome does not consume bubble indices
+            bo = next_bo
             f_gfa = (
                 outdir
                 + os.sep
